@@ -5,6 +5,7 @@ import (
 	"encoding/json"
 	"fmt"
 	"sync"
+	"sync/atomic"
 	"time"
 
 	octx "github.com/orda-io/orda/client/pkg/context"
@@ -35,6 +36,10 @@ type System struct {
 	Ctx    iface.OrdaContext
 	Cls    []*ClientH
 	DBName string
+	// a crashed server process cannot be killed inside the bubble: its database client is cut off
+	// (defunct dialer) and only disconnected at Shutdown, after its goroutines have run out
+	defunct *atomic.Bool
+	zombies []*mongodb.RepositoryMongo
 }
 
 // NewSystem creates the stand-ins (no server yet).
@@ -55,8 +60,9 @@ func (s *System) Svc() *service.OrdaService {
 // StartServer (re)builds repository, managers and service over the (surviving) database.
 func (s *System) StartServer() error {
 	utils.VerifResetLocalLocks()
+	defunct := &atomic.Bool{}
 	opt := options.Client().ApplyURI("mongodb://fake.invalid:27017/?directConnection=true").
-		SetDialer(gatedDialer{inner: mongofake.Dialer{S: s.DB}, sched: s.Sched}).
+		SetDialer(gatedDialer{inner: mongofake.Dialer{S: s.DB}, sched: s.Sched, defunct: defunct}).
 		SetServerSelectionTimeout(5 * time.Second).
 		SetHeartbeatInterval(300 * time.Second).
 		SetMaxPoolSize(32)
@@ -74,10 +80,24 @@ func (s *System) StartServer() error {
 		Redis:    red,
 	}
 	s.mu.Lock()
-	s.Repo, s.Mgrs = repo, mgrs
+	s.Repo, s.Mgrs, s.defunct = repo, mgrs, defunct
 	s.svc = service.NewOrdaService(mgrs)
 	s.mu.Unlock()
 	return nil
+}
+
+// CrashServer models the death of the server process: nothing it still does reaches the database.
+// (Disconnecting its driver client while one of its goroutines waits in server selection makes
+// mongo-driver 1.10.1 spin on the closed subscription channel, which virtual time never ends.)
+func (s *System) CrashServer() {
+	s.mu.Lock()
+	if s.Repo != nil {
+		s.defunct.Store(true)
+		s.zombies = append(s.zombies, s.Repo)
+		s.Repo = nil
+	}
+	s.svc = nil
+	s.mu.Unlock()
 }
 
 // StopServer disconnects the repository.
@@ -113,7 +133,7 @@ type ClientH struct {
 // NewClient builds a real SDK client bound to the in-process service.
 func (s *System) NewClient(collection, alias string, syncType model.SyncType) *ClientH {
 	h := &ClientH{Name: alias, States: map[string][]string{}, Errs: map[string][]string{}, Remotes: map[string][]string{}}
-	h.Stub = &Stub{Svc: s.Svc, Sched: s.Sched, Name: alias, Down: s.DB.Dead}
+	h.Stub = &Stub{Svc: s.Svc, Sched: s.Sched, Name: alias, Down: func() bool { return s.DB.Dead() || s.Svc() == nil }}
 	conf := &orda.ClientConfig{ServerAddr: "fake", NotificationAddr: "fake", CollectionName: collection, SyncType: syncType}
 	h.C = orda.NewClientForVerif(conf, alias, h.Stub, s.Broker.NewClient(alias))
 	s.Cls = append(s.Cls, h)
@@ -170,6 +190,13 @@ func (s *System) Shutdown() {
 			defer func() { recover() }()
 			c.C.VerifClose()
 		}()
+	}
+	if len(s.zombies) > 0 {
+		time.Sleep(10 * time.Minute) // every command of a dead process fails within the selection timeout
+		for _, z := range s.zombies {
+			z.Close(s.Ctx)
+		}
+		s.zombies = nil
 	}
 	s.StopServer()
 	s.DB.CloseAll()
